@@ -45,7 +45,14 @@ def evaluate(e, env):
         if isinstance(op, ast.NotEq): return a != b
         if isinstance(op, ast.In): return a in b
         if isinstance(op, ast.NotIn): return a not in b
+        if isinstance(op, ast.Is): return a is b
+        if isinstance(op, ast.IsNot): return a is not b
+        if isinstance(op, ast.Lt): return a < b
+        if isinstance(op, ast.LtE): return a <= b
+        if isinstance(op, ast.Gt): return a > b
+        if isinstance(op, ast.GtE): return a >= b
     if isinstance(e, (ast.Tuple, ast.List)): return [evaluate(x, env) for x in e.elts]
+    if isinstance(e, ast.Dict) and all(k is not None for k in e.keys): return {evaluate(k, env): evaluate(v, env) for k, v in zip(e.keys, e.values)}
     if isinstance(e, ast.Subscript):
         v = evaluate(e.value, env)
         if isinstance(e.slice, ast.Slice):
@@ -60,7 +67,14 @@ def evaluate(e, env):
             recv = evaluate(e.func.value, env)
             if not isinstance(recv, str): raise Unsupported("method call on a non-string")
             return getattr(recv, e.func.attr)(*[evaluate(a, env) for a in e.args])      # Python's own str semantics (trusted base)
-        if isinstance(e.func, ast.Name) and e.func.id in ("len", "str"): return {"len": len, "str": str}[e.func.id](*[evaluate(a, env) for a in e.args])
+        if isinstance(e.func, ast.Name) and e.func.id in ("len", "str", "bool", "list", "tuple", "sorted", "set", "dict") and not e.keywords: return {"len": len, "str": str, "bool": bool, "list": list, "tuple": tuple, "sorted": sorted, "set": set, "dict": dict}[e.func.id](*[evaluate(a, env) for a in e.args])
+        if isinstance(e.func, ast.Name) and e.func.id == "isinstance" and len(e.args) == 2:
+            T = {"str": str, "bool": bool, "int": int, "float": float, "list": list, "tuple": tuple, "dict": dict, "set": set}
+            def ty(x):
+                if isinstance(x, ast.Name) and x.id in T: return T[x.id]
+                if isinstance(x, ast.Tuple): return tuple(ty(y) for y in x.elts)
+                raise Unsupported("isinstance against " + ast.unparse(x))
+            return isinstance(evaluate(e.args[0], env), ty(e.args[1]))
     raise Unsupported("expression outside the supported subset : " + ast.unparse(e)[:80])
 
 class Raised(Exception):
@@ -80,6 +94,10 @@ def run_block(stmts, env, max_steps=2000):
             if len(v) != len(tg.elts): raise Unsupported("unpacking arity")
             for t, x in zip(tg.elts, v): assign(t, x)
         elif isinstance(tg, ast.Attribute): env[ast.unparse(tg)] = v
+        elif isinstance(tg, ast.Subscript) and not isinstance(tg.slice, ast.Slice):
+            base = evaluate(tg.value, env)
+            if not isinstance(base, (dict, list)): raise Unsupported("item assignment on " + type(base).__name__)
+            base[evaluate(tg.slice, env)] = v
         else: raise Unsupported("assignment target " + ast.unparse(tg))
     def block(ss):
         for s in ss:
@@ -95,6 +113,8 @@ def run_block(stmts, env, max_steps=2000):
                 v = evaluate(s.value, env)
                 for tg in s.targets: assign(tg, v)
                 continue
+            if isinstance(s, ast.AugAssign) and isinstance(s.op, ast.Add) and isinstance(s.target, ast.Name):
+                env[s.target.id] = evaluate(s.target, env) + evaluate(s.value, env); continue
             if isinstance(s, ast.If):
                 block(s.body if evaluate(s.test, env) else s.orelse); continue
             if isinstance(s, ast.For):
